@@ -323,6 +323,7 @@ void SoPlex_changeObjRational(void* soplex, long* objnums, long* objdenoms, int 
 
    VectorRational objective(dim, objrational);
    so->changeObjRational(objective);
+   delete[] objrational;
 }
 
 /** changes left-hand side vector for constraints to lhs **/
@@ -359,6 +360,7 @@ void SoPlex_changeLhsRational(void* soplex, long* lhsnums, long* lhsdenoms, int 
 
    VectorRational lhs(dim, lhsrational);
    so->changeLhsRational(lhs);
+   delete[] lhsrational;
 }
 
 /** changes right-hand side vector for constraints to rhs **/
@@ -411,6 +413,7 @@ void SoPlex_changeRhsRational(void* soplex, long* rhsnums, long* rhsdenoms, int 
 
    VectorRational rhs(dim, rhsrational);
    so->changeRhsRational(rhs);
+   delete[] rhsrational;
 }
 
 /** write LP to file; LP or MPS format is chosen from the extension in filename **/
